@@ -71,7 +71,7 @@ Definition tblno_ok (n : Z) : bool := (0 <=? n) && (n <? g_NUM_QUANT_TBLS).
 
 (* emit_dqt: returns (markers, state, prec) *)
 Definition emit_dqt (st : wstate) (index : Z) : cerr + (list mk * wstate * Z) :=
-  if negb (tblno_ok index) then inl NoQuantTable else
+  if (g_DQT_INDEX_CHECK =? 1) && negb (tblno_ok index) then inl NoQuantTable else
   match get_tbl st (qslot index) with
   | None => inl NoQuantTable
   | Some q =>
